@@ -144,7 +144,10 @@ Definition restore_value (attr stored : bytes) : option bytes :=
   match class_of attr with
   | C_OWNER | C_OID => Some (enc_b58 cd stored)
   | C_SUM | C_HOMO => Some (enc_hex cd stored)
-  | C_SPLIT => if Nat.eqb (length stored) 16 then Some (enc_uuid cd stored) else None
+  | C_SPLIT => match stored with
+               | [] => Some []        (* no split ID (repaired: used to be an error) *)
+               | _ => if Nat.eqb (length stored) 16 then Some (enc_uuid cd stored) else None
+               end
   | C_PLAIN => Some stored
   end.
 
@@ -356,7 +359,9 @@ Fixpoint prim_check (f0key : bytes) (first : bool) (ofs : list ofilter) (dbv : b
       if is_int_op m then Some (of_auto o || int_bytes_match dbv m (of_raw o))
       else match combine_values (f_key f) dbv val with
            | None => None
-           | Some (a, b) => Some (match_values a m b)
+           | Some (a, b) =>
+             (* matchValues panics on NOT_PRESENT; reported as an error *)
+             if matcher_eqb m M_NOT_PRESENT then None else Some (match_values a m b)
            end in
     match res with
     | None => (V_Err, was)
